@@ -120,7 +120,7 @@ def cases(tier):
         sign_patterns = [(a, b, a, b) for a in (0, 1) for b in (0, 1)]
     else:
         days, win, nts = 4000, (1998, 2000), (1, 2)
-        sign_patterns = [(a, b, c, d) for a in (0, 1) for b in (0, 1) for c in (0, 1) for d in (0, 1)]
+        sign_patterns = [(0, 0, 0, 0), (0, 1, 0, 1), (1, 0, 1, 0), (1, 1, 1, 1), (0, 0, 1, 1), (1, 1, 0, 0), (0, 1, 1, 0), (1, 0, 0, 1)]
     for kind in ("zone", "utc", "fixed", "naive"):
         for nt in (nts if kind == "zone" else (1,)):
             w = win if nt == 1 else (1998, 2000)
